@@ -158,6 +158,31 @@ ALLOWED = {('reserve_put', QP, 'append'), ('reserve_put', QP, 'sort'), ('reserve
            ('reserve_put_cancel', QP, 'remove'), ('reserve_get_cancel', QG, 'remove')}
 
 
+def entry_functions(p, cls_key, name):
+    """the methods of the class hierarchy from which `name` is (transitively) called and that are not themselves called by a sibling:
+    a private helper that only its designated function calls is part of that function"""
+    meths = p.methods(cls_key)
+    callers = {}
+    for fi in meths.values():
+        for n in walk_no_nested(fi.node):
+            if isinstance(n, ast.Attribute) and isinstance(n.value, ast.Name) and n.value.id == 'self' and n.attr in meths and n.attr != fi.name:
+                callers.setdefault(n.attr, set()).add(fi.name)
+    out, seen, work = set(), set(), [name]
+    while work:
+        f = work.pop()
+        if f in seen:
+            continue
+        seen.add(f)
+        cs = callers.get(f, set()) if (f.startswith('_') and not f.startswith(('_trigger', '_do_'))) or f == name else set()
+        if f != name and not (f.startswith('_') and not f.startswith(('_trigger', '_do_'))):
+            out.add(f)
+            continue
+        if not cs:
+            out.add(f)
+        work.extend(cs)
+    return out
+
+
 def check_queue_mutations(p, w, r):
     s = w.store
     reach = w.reachable_methods()
@@ -183,7 +208,7 @@ def check_queue_mutations(p, w, r):
                 head_pop = op == 'pop' and isinstance(n, ast.Call) and len(n.args) == 1 and isinstance(n.args[0], ast.Constant) and n.args[0].value == 0
                 if head_pop:
                     r.ok('C05.R2', key, 'removal of the head: the relative order of the remaining requests is unchanged', src(fi.module), n.lineno)
-                elif (fi.name, Q, op) in ALLOWED:
+                elif (fi.name, Q, op) in ALLOWED or (fi.name.startswith('_') and all((e, Q, op) in ALLOWED for e in entry_functions(p, s.ci.key, fi.name))):
                     r.ok('C05.R2', key, 'order-preserving queue operation in its designated function', src(fi.module), n.lineno)
                 elif fi.key not in reach:
                     r.ok('C05.R2', key, 'in a method unreachable from the store API (excluded)', src(fi.module), n.lineno)
